@@ -74,7 +74,7 @@ fn inproc_case(t: &mut Tape, _w: &Worker) -> CaseResult {
 }
 
 fn cli_case(t0: &mut Tape, w: &Worker) -> CaseResult {
-    let mut ot = t0.fork(64); // options come from their own tape region
+    let mut ot = t0.fork(220); // options come from their own tape region
     let mut cs = gen::gen_conf_stream(t0, &ConfOpts { allow_fatal_lanes: true, ..Default::default() });
     let t = &mut ot;
     // some streams are padded to an exact multiple of the 100-packet batch
@@ -116,6 +116,9 @@ fn cli_case(t0: &mut Tape, w: &Worker) -> CaseResult {
             }
             let stats_path = w.path(if toml_fmt { "stats.toml" } else { "stats.json" });
             args.extend(stats_args(&stats_path, toml_fmt));
+            let (extra, extra_labels) = neutral_extras(t, w, &cs.stream, lay.packets.len());
+            args.extend(extra);
+            out.labels.extend(extra_labels);
             let (spec, o) = case.run(args, stdin);
             let detail = |what: &str| {
                 json!({"what": what, "mode": mode.name(), "cmd": spec.describe(), "out": o.brief(),
@@ -203,7 +206,7 @@ pub fn build() -> Property {
                 name: "cli",
                 kind: PhaseKind::Gen {
                     cases: (2400, 12000),
-                    tape_len: gen::CONF_TAPE_LEN,
+                    tape_len: gen::CONF_TAPE_LEN + 220,
                     f: Box::new(cli_case),
                 },
                 threads: 16,
